@@ -92,6 +92,28 @@ def _pipeline(tier):
     return res
 
 
+def _inductive():
+    """Unbounded in the amounts: Apalache discharges the inductive invariant of spec/apalache/PoolsInd.tla
+    (base case from Init, one step from an arbitrary state satisfying the invariant).  Additional to the TLC
+    results, thorough tier only; a failure here is a defect of the specification (machinery failure)."""
+    import os
+    import shutil
+    import subprocess
+    import time as _t
+    stage = C.scratch('pools_apalache')
+    shutil.copy(os.path.join(C.SPEC, 'apalache', 'PoolsInd.tla'), stage)
+    out = {}
+    for name, args in (('base', ['--init=Init', '--length=0']), ('step', ['--init=IndInit', '--length=1'])):
+        t0 = _t.time()
+        p = subprocess.run(['apalache-mc', 'check'] + args + ['--inv=IndInv', '--out-dir=' + os.path.join(stage, 'out'),
+                                                              'PoolsInd.tla'], cwd=stage, capture_output=True, text=True, timeout=1200)
+        ok = 'EXITCODE: OK' in p.stdout
+        out[name] = {'ok': ok, 'wall': round(_t.time() - t0, 1)}
+        if not ok:
+            raise C.MachineryError('Apalache did not discharge the %s case of PoolsInd:\n%s' % (name, p.stdout[-1500:]))
+    return out
+
+
 def result(tier):
     return P.cached('pools', tier, lambda: _pipeline(tier))
 
@@ -130,6 +152,8 @@ def run(prop, tier):
                 'random sequences executed on the real ResourceManager + Environment; each recorded call and dispatched '
                 'event validated by TLC against the relations of PoolsTrace.tla on the logged pre-state',
     }
+    if tier == 'thorough' and prop == 'C09':
+        cov['apalache_inductive_invariant'] = P.cached('pools_apalache', tier, _inductive)
     C.write_evidence(prop, tier, cov, time.time() - t0 if not res['from_cache'] else res['wall'],
                      len(v.unlisted),
                      ['amounts and times are integers (exact in float arithmetic)',
